@@ -51,6 +51,10 @@ def cases(tier, r):
                     continue
                 arg, present = r.choice(_arg_variants(r, sh, False))
                 ps.append({"x": "shift", "A": list(sh), "B": list(B), "anchor": list(an), "wells": arg, "present": present})
+            # one object used repeatedly, first on its own table of wells
+            if B[0] >= R and B[1] >= C:
+                arg, present = r.choice(_arg_variants(r, sh, False))
+                ps.append({"x": "shift", "A": list(sh), "B": list(B), "anchor": [0, 0], "wells": arg, "present": present, "own": True})
     return ps
 
 
